@@ -223,8 +223,12 @@ def alt_params(case, r):
   G = len(case['panel']['ids'])
   vals = np.where(case['panel']['present'], case['panel']['values'], 0.0)
   shares = vals.mean(axis=1) / vals.mean(axis=1).sum()
+  had = [k for k in ('n_geos_max', 'treatment_share_range', 'budget_range') if kw.get(k) is not None]
   for k in ('n_geos_max', 'treatment_share_range', 'budget_range'):
     kw.pop(k, None)
+  u = r.random()
+  if had and u < 0.7:
+    return kw            # the second object admits a superset of geos (no geo-level constraint at all)
   u = r.random()
   if u < 0.4 and G >= 3:
     kw['n_geos_max'] = r.randrange(2, G)
@@ -539,7 +543,7 @@ def brute_force(truth, admitted, par, exhaustive=True):
         opt_out[S] = 'in'
   out_sets = [set(S) for S, v in opt_out.items() if v != 'in']
   feasible = []
-  cache = {}
+  unscorable = []
   for T, C in pairs + amb_pairs:
     ambiguous = (T, C) in set(amb_pairs) if amb_pairs else False
     nd = {'t': list(T), 'c': list(C)}
@@ -566,7 +570,12 @@ def brute_force(truth, admitted, par, exhaustive=True):
     x, y = truth.series(C), truth.series(T)
     if np.ptp(x) == 0 or np.ptp(y) == 0:
       ambiguous = True
-    rc = recompute(truth, nd, par, budget_scoring=True)
+    try:
+      rc = recompute(truth, nd, par, budget_scoring=True)
+    except ValueError:
+      # e.g. perfectly correlated twin series: the diagnostics refuse the pair; neither demanded nor forbidden
+      unscorable.append((T, C))
+      continue
     if score_knife_edge(rc):
       ambiguous = True
     omittable = False
@@ -578,7 +587,8 @@ def brute_force(truth, admitted, par, exhaustive=True):
           break
     feasible.append({'t': list(T), 'c': list(C), 'score': rc['score'], 'omittable': omittable,
                      'ambiguous': ambiguous, 'impact': rc['impact']})
-  return {'feasible': feasible, 'n_assignments': len(pairs), 'n_ambiguous_pairs': len(amb_pairs)}
+  return {'feasible': feasible, 'n_assignments': len(pairs), 'n_ambiguous_pairs': len(amb_pairs),
+          'unscorable': unscorable}
 
 
 def score_lt(a, b):
